@@ -171,6 +171,22 @@ def Insert.render (i : Insert) : List Tok :=
   k tkInsert :: k tkInto :: renderName i.ks i.table
     (k tkLparen :: renderCols i.cols (idt i.valuesKw :: k tkLparen :: i.vals.renderElems (k tkRparen :: i.tail)))
 
+/-- an INSERT followed by something: `i.tail`, then `after` -/
+def Insert.renderWith (i : Insert) (after : List Tok) : List Tok :=
+  k tkInsert :: k tkInto :: renderName i.ks i.table
+    (k tkLparen :: renderCols i.cols (idt i.valuesKw :: k tkLparen :: i.vals.renderElems (k tkRparen :: (i.tail ++ after))))
+
+/-- the children of a batch, each an INSERT with or without a `;` behind it -/
+def renderChildren : List (Insert × Bool) → List Tok → List Tok
+  | [], rest => rest
+  | (i, semi) :: more, rest => i.renderWith ((if semi then [k tkEOS] else []) ++ renderChildren more rest)
+
+/-- `BEGIN BATCH insert [;] insert [;] … APPLY BATCH <anything>` -/
+def renderBatch (children : List (Insert × Bool)) (rest : List Tok) : List Tok :=
+  k tkBegin :: k tkBatch :: renderChildren children (k tkApply :: k tkBatch :: rest)
+
+def childrenNonIdem (children : List (Insert × Bool)) : Bool := children.any fun c => c.1.vals.nonIdem
+
 /-- the assignments of an UPDATE's SET clause, each `column = term` -/
 inductive Assigns where
   | nil
